@@ -12,9 +12,6 @@ namespace Rx.SubjM
   simp [upd, h]
 theorem upd_apply (f : Nat → ObsSt) (o o' : Nat) (r : ObsSt) : upd f o r o' = if o' = o then r else f o' := rfl
 
-def Kind.isReplay : Kind → Bool
-  | .replay => true
-  | _ => false
 def Kind.isAsync : Kind → Bool
   | .async => true
   | _ => false
@@ -306,9 +303,9 @@ theorem handOver_fields (r : ObsSt) (hist : List Data) (we : Option Nat) (wc : B
   | some e => simpa [ObsSt.recv] using h
   | none => cases wc <;> simpa [ObsSt.recv] using h
 
-theorem Inv.subscribeB {k st} (h : Inv k st) (o : Nat) (p : Pending) (hk : p.fresh = true → (st.obs o).seen = true) :
-    Inv k (subscribeB k st o p) := by
-  unfold SubjM.subscribeB
+theorem Inv.subscribeH {k st} (h : Inv k st) (o : Nat) (p : Pending) (hk : p.fresh = true → (st.obs o).seen = true) :
+    Inv k (subscribeH k st o p) := by
+  unfold SubjM.subscribeH
   cases k with
   | replay =>
     dsimp only
@@ -449,24 +446,195 @@ theorem subscribeA_obs_other (k : Kind) (st : State) (o o' : Nat) (hne : o' ≠ 
         · simp [register_obs, hne]
     | _ => simp [register_obs, hne]
 
-theorem subscribeB_obs_other (k : Kind) (st : State) (o o' : Nat) (p : Pending) (hne : o' ≠ o) :
-    (subscribeB k st o p).obs o' = st.obs o' := by
-  unfold subscribeB
+theorem subscribeH_obs_other (k : Kind) (st : State) (o o' : Nat) (p : Pending) (hne : o' ≠ o) :
+    (subscribeH k st o p).obs o' = st.obs o' := by
+  unfold subscribeH
   cases k with
   | replay => dsimp only; split <;> simp [hne]
   | _ => rfl
 
-theorem subscribeB_observers (k : Kind) (st : State) (o : Nat) (p : Pending) :
-    (subscribeB k st o p).observers = st.observers := by
-  unfold subscribeB
+theorem subscribeH_observers (k : Kind) (st : State) (o : Nat) (p : Pending) :
+    (subscribeH k st o p).observers = st.observers := by
+  unfold subscribeH
   cases k with
   | replay => dsimp only; split <;> rfl
   | _ => rfl
 
+/-! ### `reap`: the forwarder of a subscriber that ended during the replay is taken out again -/
+
+def reaped (r : ObsSt) : Bool := !r.alive && r.armed
+
+theorem reap_observers (st : State) (o : Nat) :
+    (reap st o).1.observers =
+      match (st.obs o).inHook with
+      | some s => if reaped (st.obs o) then st.observers.filter (fun p => p.1 != s) else st.observers
+      | none => st.observers := rfl
+
+theorem reap_obs (st : State) (o o' : Nat) :
+    (reap st o).1.obs o' =
+      if o' = o then
+        { st.obs o with
+          armed := (st.obs o).armed && (st.obs o).alive
+          inAlive := (st.obs o).inAlive && !reaped (st.obs o)
+          inHook := if reaped (st.obs o) then none else (st.obs o).inHook }
+      else st.obs o' := rfl
+
+theorem reap_obs_other (st : State) (o o' : Nat) (hne : o' ≠ o) : (reap st o).1.obs o' = st.obs o' := by
+  rw [reap_obs, if_neg hne]
+
+/-- what the subscriber itself has is untouched -/
+theorem reap_obs_self (st : State) (o : Nat) :
+    ((reap st o).1.obs o).seen = (st.obs o).seen ∧ ((reap st o).1.obs o).alive = (st.obs o).alive ∧
+    ((reap st o).1.obs o).log = (st.obs o).log ∧ ((reap st o).1.obs o).hook = (st.obs o).hook := by
+  rw [reap_obs, if_pos rfl]; exact ⟨rfl, rfl, rfl, rfl⟩
+
+theorem reap_serial (st : State) (o : Nat) : (reap st o).1.serial = st.serial := rfl
+
+theorem reap_sub (st : State) (o o' : Nat) (h : o' ∈ registered (reap st o).1) : o' ∈ registered st := by
+  simp only [mem_registered, reap_observers] at *
+  obtain ⟨s, hs⟩ := h
+  refine ⟨s, ?_⟩
+  split at hs
+  · split at hs
+    · exact (List.mem_filter.1 hs).1
+    · exact hs
+  · exact hs
+
+theorem reap_mem {k st} (h : Inv k st) (o o' : Nat) :
+    o' ∈ registered (reap st o).1 ↔ o' ∈ registered st ∧ ¬(o' = o ∧ reaped (st.obs o) = true) := by
+  simp only [mem_registered, reap_observers]
+  have h1 := h.hookOfReg
+  have h3 := h.hookInj
+  cases hh : (st.obs o).inHook with
+  | none =>
+    simp only
+    constructor
+    · rintro ⟨s, hs⟩
+      refine ⟨⟨s, hs⟩, ?_⟩
+      rintro ⟨rfl, _⟩
+      have := h1 _ _ hs; simp [hh] at this
+    · rintro ⟨⟨s, hs⟩, _⟩; exact ⟨s, hs⟩
+  | some s0 =>
+    simp only
+    cases hr : reaped (st.obs o) with
+    | false => simp
+    | true =>
+      simp only [↓reduceIte, List.mem_filter, bne_iff_ne, ne_eq, and_true]
+      constructor
+      · rintro ⟨s, hs, hne⟩
+        refine ⟨⟨s, hs⟩, ?_⟩
+        rintro rfl
+        have := h1 _ _ hs; rw [hh] at this; simp at this; exact hne this.symm
+      · rintro ⟨⟨s, hs⟩, hne⟩
+        refine ⟨s, hs, ?_⟩
+        rintro rfl
+        exact hne (h3 o' o s (h1 _ _ hs) hh)
+
+theorem Inv.reap {k st} (h : Inv k st) (o : Nat) : Inv k (reap st o).1 := by
+  have hmem := reap_mem h o
+  have hobs := reap_obs st o
+  obtain ⟨h1, h2, h3, h4, h5, h6, h7, h8⟩ := h
+  have hsub : ∀ s o', (s, o') ∈ (SubjM.reap st o).1.observers → (s, o') ∈ st.observers := by
+    intro s o'; rw [reap_observers]
+    split
+    · split
+      · intro hm; exact (List.mem_filter.1 hm).1
+      · exact id
+    · exact id
+  constructor
+  · intro s o' hm
+    have hm0 := hsub s o' hm
+    have hr : o' ∈ registered (SubjM.reap st o).1 := (mem_registered _ _).2 ⟨s, hm⟩
+    have := (hmem o').1 hr
+    rw [hobs]
+    have := h1 s o' hm0
+    split
+    · grind
+    · assumption
+  · intro o' s; rw [hobs, reap_serial]; have := h2 o' s; have := h2 o s; grind
+  · intro o1 o2 s; simp only [hobs]; have := h3 o1 o2 s; have := h3 o o2 s; have := h3 o1 o s; grind
+  · have : (registered (SubjM.reap st o).1).Sublist (registered st) := by
+      unfold registered; rw [reap_observers]
+      split
+      · split
+        · exact List.Sublist.map _ List.filter_sublist
+        · exact List.Sublist.refl _
+      · exact List.Sublist.refl _
+    exact this.nodup h4
+  · intro o'; rw [hobs]; have := h5 o'; grind
+  · intro o' ho' hk; have hm' := (hmem o').1 ho'; rw [hobs]; have := h6 o' hm'.1 hk
+    grind
+  · intro o' ho' hk; have hm' := (hmem o').1 ho'; rw [hobs]; have := h7 o' hm'.1 hk
+    grind
+  · intro o' ho' hk; have hm' := (hmem o').1 ho'; rw [hobs]; have := h8 o' hm'.1 hk; have := h7 o' hm'.1 hk
+    grind
+
+/-! ### `subscribeB` = hand-over, then `reap` (replay) -/
+
+theorem subscribeB_fst (k : Kind) (st : State) (o : Nat) (p : Pending) :
+    (subscribeB k st o p).1 =
+      if k.isReplay && p.fresh then (reap (subscribeH k st o p) o).1 else subscribeH k st o p := by
+  unfold subscribeB; split <;> rfl
+
+theorem subscribeH_not_replay (k : Kind) (hk : k.isReplay = false) (st : State) (o : Nat) (p : Pending) :
+    subscribeH k st o p = st := by
+  cases k <;> simp_all [subscribeH, Kind.isReplay]
+
+theorem subscribeH_not_fresh (k : Kind) (st : State) (o : Nat) (p : Pending) (hp : p.fresh = false) :
+    subscribeH k st o p = st := by
+  cases k <;> simp [subscribeH, hp]
+
+theorem subscribeB_noop (k : Kind) (st : State) (o : Nat) (p : Pending) (h : (k.isReplay && p.fresh) = false) :
+    subscribeB k st o p = (st, none) := by
+  unfold subscribeB
+  rw [if_neg (by simp [h])]
+  cases hk : k.isReplay with
+  | false => rw [subscribeH_not_replay k hk]
+  | true => rw [subscribeH_not_fresh k st o p (by simpa [hk] using h)]
+
+theorem subscribeB_obs_other (k : Kind) (st : State) (o o' : Nat) (p : Pending) (hne : o' ≠ o) :
+    (subscribeB k st o p).1.obs o' = st.obs o' := by
+  rw [subscribeB_fst]; split
+  · rw [reap_obs_other _ _ _ hne, subscribeH_obs_other _ _ _ _ _ hne]
+  · exact subscribeH_obs_other _ _ _ _ _ hne
+
+/-- the subscriber's own view after the whole hand-over is what `subscribeH` left -/
+theorem subscribeB_obs_self (k : Kind) (st : State) (o : Nat) (p : Pending) :
+    ((subscribeB k st o p).1.obs o).seen = ((subscribeH k st o p).obs o).seen ∧
+    ((subscribeB k st o p).1.obs o).alive = ((subscribeH k st o p).obs o).alive ∧
+    ((subscribeB k st o p).1.obs o).log = ((subscribeH k st o p).obs o).log ∧
+    ((subscribeB k st o p).1.obs o).hook = ((subscribeH k st o p).obs o).hook := by
+  rw [subscribeB_fst]; split
+  · exact reap_obs_self _ _
+  · exact ⟨rfl, rfl, rfl, rfl⟩
+
+theorem subscribeB_sub (k : Kind) (st : State) (o o' : Nat) (p : Pending)
+    (h : o' ∈ registered (subscribeB k st o p).1) : o' ∈ registered st := by
+  rw [subscribeB_fst] at h
+  have hH : registered (subscribeH k st o p) = registered st := by simp [registered, subscribeH_observers]
+  split at h
+  · rw [← hH]; exact reap_sub _ _ _ h
+  · rw [← hH]; exact h
+
+theorem Inv.subscribeB {k st} (h : Inv k st) (o : Nat) (p : Pending) (hk : p.fresh = true → (st.obs o).seen = true) :
+    Inv k (subscribeB k st o p).1 := by
+  rw [subscribeB_fst]; split
+  · exact (h.subscribeH o p hk).reap o
+  · exact h.subscribeH o p hk
+
+/-- others keep their place in the map -/
+theorem subscribeB_mem_other {k st} (h : Inv k st) (o o' : Nat) (p : Pending)
+    (hk : p.fresh = true → (st.obs o).seen = true) (hne : o' ≠ o) (hr : o' ∈ registered st) :
+    o' ∈ registered (subscribeB k st o p).1 := by
+  have hH : registered (subscribeH k st o p) = registered st := by simp [registered, subscribeH_observers]
+  rw [subscribeB_fst]; split
+  · exact (reap_mem (h.subscribeH o p hk) o o').2 ⟨by rw [hH]; exact hr, fun hh => hne hh.1⟩
+  · rw [hH]; exact hr
+
 theorem step_subscribe_seen (k : Kind) (st : State) (o : Nat) (hs : (st.obs o).seen = true) :
     step k st (.subscribe o) = st := by
   simp only [step, subscribeA_seen k st o hs]
-  cases k <;> simp [subscribeB]
+  rw [subscribeB_noop k st o {} (by simp)]
 
 theorem step_subscribe_other (k : Kind) (st : State) (o o' : Nat) (hne : o' ≠ o) :
     (step k st (.subscribe o)).obs o' = st.obs o' := by
@@ -499,12 +667,16 @@ def Armed (k : Kind) (st : State) : Prop :=
 structure Good (k : Kind) (st : State) : Prop where
   inv : Inv k st
   armed : Armed k st
+  /-- every kind (replay included, since the reaping of subscribers ended by the hand-over): the map holds
+      no subscriber that is no longer subscribed -/
+  alive : ∀ (o : Nat), o ∈ registered st → (st.obs o).alive = true
 
 theorem Inv.armed_of_not_replay {k st} (h : Inv k st) (hk : k.isReplay = false) : Armed k st :=
   fun o ho => h.regHook o ho hk
 
 theorem good_init (k : Kind) : Good k (init k) :=
-  ⟨inv_init k, by intro o ho; cases k <;> simp [init, registered] at ho⟩
+  ⟨inv_init k, by intro o ho; cases k <;> simp [init, registered] at ho,
+   by intro o ho; cases k <;> simp [init, registered] at ho⟩
 
 theorem subscribeA_registered (k : Kind) (st : State) (o : Nat) :
     registered (subscribeA k st o).1 =
@@ -522,6 +694,25 @@ theorem subscribeA_registered (k : Kind) (st : State) (o : Nat) :
         · simp [register_registered]
     | _ => simp [register_registered]
 
+theorem subscribeA_sub (k : Kind) (st : State) (o o' : Nat) (h : o' ∈ registered (subscribeA k st o).1) :
+    o' ∈ registered st ∨ o' = o := by
+  rw [subscribeA_registered] at h; split at h
+  · simpa using h
+  · exact Or.inl h
+
+theorem subscribeA_mono (k : Kind) (st : State) (o o' : Nat) (h : o' ∈ registered st) :
+    o' ∈ registered (subscribeA k st o).1 := by
+  rw [subscribeA_registered]; split <;> simp [h]
+
+/-- `subscribe o'` never removes or adds anybody else -/
+theorem step_subscribe_sub (k : Kind) (st : State) (o o' : Nat) (h : o' ∈ registered (step k st (.subscribe o))) :
+    o' ∈ registered st ∨ o' = o :=
+  subscribeA_sub k st o o' (subscribeB_sub _ _ _ _ _ h)
+
+theorem step_subscribe_mono {k st} (hi : Inv k st) (o o' : Nat) (hne : o' ≠ o) (h : o' ∈ registered st) :
+    o' ∈ registered (step k st (.subscribe o)) :=
+  subscribeB_mem_other (hi.subscribeA o) o o' _ (subscribeA_fresh_seen k st o) hne (subscribeA_mono k st o o' h)
+
 theorem Good.step {k st} (h : Good k st) (c : Call) : Good k (step k st c) := by
   have hinv : Inv k (SubjM.step k st c) := by
     cases c with
@@ -530,46 +721,75 @@ theorem Good.step {k st} (h : Good k st) (c : Call) : Good k (step k st c) := by
     | next v => exact h.inv.emit _
     | error e => exact h.inv.emit _
     | complete => exact h.inv.emit _
-  refine ⟨hinv, ?_⟩
   cases hk : k.isReplay with
-  | false => exact hinv.armed_of_not_replay hk
+  | false => exact ⟨hinv, hinv.armed_of_not_replay hk, fun o ho => hinv.regAlive o ho hk⟩
   | true =>
     have hk' : k = .replay := by cases k <;> simp_all [Kind.isReplay]
     subst hk'
     have ha := h.armed
+    have hal := h.alive
+    suffices hs : ∀ o', o' ∈ registered (SubjM.step .replay st c) →
+        ((SubjM.step .replay st c).obs o').hook = true ∧ ((SubjM.step .replay st c).obs o').armed = true ∧
+        ((SubjM.step .replay st c).obs o').alive = true from
+      ⟨hinv, fun o' ho' => ⟨(hs o' ho').1, Or.inr (hs o' ho').2.1⟩, fun o' ho' => (hs o' ho').2.2⟩
+    have hold : ∀ o', o' ∈ registered st →
+        (st.obs o').hook = true ∧ (st.obs o').armed = true ∧ (st.obs o').alive = true := by
+      intro o' ho'
+      have := ha o' ho'
+      exact ⟨this.1, by simpa [Kind.isPlain] using this.2, hal o' ho'⟩
     cases c with
     | subscribe o =>
       intro o' ho'
       by_cases hne : o' = o
       · subst hne
         cases hs : (st.obs o').seen with
-        | true => rw [step_subscribe_seen _ _ _ hs] at ho' ⊢; exact ha o' ho'
+        | true => rw [step_subscribe_seen _ _ _ hs] at ho' ⊢; exact hold o' ho'
         | false =>
-          simp [SubjM.step, subscribeA, subscribeB, hs, register_obs, (handOver_fields _ _ _ _).2.1]
+          -- the new subscriber: in the map after the hand-over means it was not reaped, i.e. it is alive
+          have hA : subscribeA .replay st o' =
+              (register st o' { seen := true, alive := true, hook := true, inAlive := true },
+               { fresh := true, len := some (st.observers.length + 1), history := st.items }) := by
+            simp [subscribeA, hs]
+          have hiH := (h.inv.subscribeA o').subscribeH o' (subscribeA .replay st o').2 (subscribeA_fresh_seen _ st o')
+          simp only [SubjM.step, subscribeB_fst, hA, Kind.isReplay, Bool.true_and, ↓reduceIte] at ho' ⊢
+          rw [hA] at hiH
+          simp only at hiH
+          generalize hH : subscribeH .replay (register st o' { seen := true, alive := true, hook := true, inAlive := true }) o'
+            { fresh := true, len := some (st.observers.length + 1), history := st.items } = H at hiH ho' ⊢
+          have hHo : (H.obs o').hook = true ∧ (H.obs o').armed = true := by
+            rw [← hH]; simp [subscribeH, register_obs, (handOver_fields _ _ _ _).2.1]
+          have hm := (reap_mem hiH o' o').1 ho'
+          have hnr : reaped (H.obs o') = false := by
+            cases hr : reaped (H.obs o') with
+            | false => rfl
+            | true => exact absurd ⟨rfl, hr⟩ hm.2
+          have hal' : (H.obs o').alive = true := by
+            unfold reaped at hnr; simpa [hHo.2] using hnr
+          have hs' := reap_obs_self H o'
+          refine ⟨by rw [hs'.2.2.2]; exact hHo.1, ?_, by rw [hs'.2.1]; exact hal'⟩
+          rw [reap_obs, if_pos rfl]; simp [hHo.2, hal']
       · rw [step_subscribe_other _ _ _ _ hne]
-        simp only [SubjM.step, registered, subscribeB_observers] at ho'
-        have := subscribeA_registered .replay st o
-        simp only [registered] at this
-        rw [this] at ho'
-        split at ho'
-        · simp only [List.mem_append, List.mem_map, List.mem_singleton] at ho'
-          rcases ho' with ho' | ho'
-          · exact ha o' (by simpa [registered] using ho')
-          · exact absurd ho' hne
-        · exact ha o' (by simpa [registered] using ho')
+        rcases step_subscribe_sub _ _ _ _ ho' with h1 | h1
+        · exact hold o' h1
+        · exact absurd h1 hne
     | unsubscribe o =>
       intro o' ho'
       have hm := (unsub_mem h.inv o o').1 ho'
-      have := ha o' hm.1
+      have ho := hold o' hm.1
+      have hseen := h.inv.regSeen o' hm.1
+      have hne : o' ≠ o := by
+        rintro rfl
+        apply hm.2
+        refine ⟨rfl, ?_⟩
+        unfold reaches; simp [hseen, ho.1, ho.2.1]
       simp only [SubjM.step, unsub_obs]
-      unfold reaches at hm
-      have := h.inv.regSeen o' hm.1
-      grind
+      rw [if_neg (fun hh => hne hh.1)]
+      exact ho
     | next v =>
       intro o' ho'
       simp [SubjM.step, emit_registered, Ev.isTerminal] at ho'
-      simp only [SubjM.step, emit_obs h.inv, ho', if_true, recvK_hook, recvK_armed_next]
-      exact ha o' ho'
+      simp only [SubjM.step, emit_obs h.inv, ho', if_true, recvK_hook, recvK_armed_next, recvK_alive_next]
+      exact hold o' ho'
     | error e => intro o' ho'; simp [SubjM.step, emit_registered, Ev.isTerminal] at ho'
     | complete => intro o' ho'; simp [SubjM.step, emit_registered, Ev.isTerminal] at ho'
 
@@ -693,11 +913,11 @@ theorem LogOk.handOver {r : ObsSt} (h : LogOk r) (hist : List Data) (we : Option
     | false => exact this
     | true => exact this.recv _
 
-theorem LogOk.subscribeB {k st} (h : ∀ o, LogOk (st.obs o)) (o : Nat) (p : Pending) (o' : Nat) :
-    LogOk ((subscribeB k st o p).obs o') := by
+theorem LogOk.subscribeH {k st} (h : ∀ o, LogOk (st.obs o)) (o : Nat) (p : Pending) (o' : Nat) :
+    LogOk ((subscribeH k st o p).obs o') := by
   by_cases hne : o' = o
   · subst hne
-    unfold SubjM.subscribeB
+    unfold SubjM.subscribeH
     cases k with
     | replay =>
       dsimp only
@@ -706,7 +926,18 @@ theorem LogOk.subscribeB {k st} (h : ∀ o, LogOk (st.obs o)) (o : Nat) (p : Pen
         simpa [LogOk] using this
       · exact h o'
     | _ => exact h o'
-  · rw [subscribeB_obs_other _ _ _ _ _ hne]; exact h o'
+  · rw [subscribeH_obs_other _ _ _ _ _ hne]; exact h o'
+
+theorem LogOk.reap {st} (h : ∀ o, LogOk (st.obs o)) (o o' : Nat) : LogOk ((reap st o).1.obs o') := by
+  rw [reap_obs]; split
+  · subst_vars; exact h o'
+  · exact h o'
+
+theorem LogOk.subscribeB {k st} (h : ∀ o, LogOk (st.obs o)) (o : Nat) (p : Pending) (o' : Nat) :
+    LogOk ((subscribeB k st o p).1.obs o') := by
+  rw [subscribeB_fst]; split
+  · exact LogOk.reap (fun o' => LogOk.subscribeH h o p o') o o'
+  · exact LogOk.subscribeH h o p o'
 
 theorem LogOk.unsubscribeN {k st} (h : ∀ o, LogOk (st.obs o)) (o o' : Nat) :
     LogOk ((unsubscribeN k st o).1.obs o') := by
@@ -779,10 +1010,11 @@ theorem delivers_to_current (k : Kind) (hk : k.isAsync = false) (cs : List Call)
       else logOf (run k cs) o := by
   rw [step_emit k _ c ev hc]; exact emit_log (good_run k cs).inv hk ev o
 
-/-- for plain / behavior / async the map never holds a subscriber that is no longer subscribed … -/
-theorem registered_alive (k : Kind) (hk : k.isReplay = false) (cs : List Call) (o : Nat)
+/-- for every kind (ReplaySubject too: replay_subject.rs:95-99 takes the forwarder of a subscriber that was
+    ended by the hand-over out again) the map never holds a subscriber that is no longer subscribed … -/
+theorem registered_alive (k : Kind) (cs : List Call) (o : Nat)
     (ho : o ∈ registered (run k cs)) : aliveOf (run k cs) o = true :=
-  (good_run k cs).inv.regAlive o ho hk
+  (good_run k cs).alive o ho
 
 /-- … so for a plain Subject "registered at that moment" alone decides who gets the event -/
 theorem delivers_to_current_plain (cs : List Call) (c : Call) (ev : Ev) (hc : c.toEv? = some ev) (o : Nat) :
@@ -790,7 +1022,7 @@ theorem delivers_to_current_plain (cs : List Call) (c : Call) (ev : Ev) (hc : c.
       if o ∈ registered (run .plain cs) then logOf (run .plain cs) o ++ [ev] else logOf (run .plain cs) o := by
   rw [delivers_to_current .plain rfl cs c ev hc o]
   by_cases ho : o ∈ registered (run .plain cs)
-  · simp [ho, registered_alive .plain rfl cs o ho]
+  · simp [ho, registered_alive .plain cs o ho]
   · simp [ho]
 
 /-- subscribe / unsubscribe calls never write into another subscriber's log -/
@@ -809,20 +1041,18 @@ theorem no_observer_after_terminal (k : Kind) (cs : List Call) (c : Call) (ev : 
     (ht : ev.isTerminal = true) : registered (step k (run k cs) c) = [] := by
   rw [step_emit k _ c ev hc, emit_registered]; simp [ht]
 
-/-- and (plain / behavior / async) an observer whose log holds a terminal is in no reachable map -/
-theorem terminated_not_registered (k : Kind) (hk : k.isReplay = false) (cs : List Call) (o : Nat)
+/-- and — every kind, every call sequence — an observer whose log holds a terminal is in no reachable map -/
+theorem terminated_not_registered (k : Kind) (cs : List Call) (o : Nat)
     (ht : nonTerminal (logOf (run k cs) o) = false) : o ∉ registered (run k cs) := by
   intro ho
-  have := (logOk_run k cs o).2 (registered_alive k hk cs o ho)
+  have := (logOk_run k cs o).2 (registered_alive k cs o ho)
   simp [logOf] at ht; simp [ht] at this
 
-/-- FALSE for ReplaySubject (replay_subject.rs:46-93): a subscriber that arrives after the terminal gets the
-    history and the terminal, but its forwarding observer has already been put into the inner Subject's map
-    and nobody takes it out (the terminal does not run `fn_on_unsubscribe`): the map holds observer 0 although
-    0 has received `complete`. -/
-theorem replay_holds_observer_after_terminal :
-    let st := run .replay [.complete, .subscribe 0]
-    logOf st 0 = [.complete] ∧ aliveOf st 0 = false ∧ registered st = [0] := by decide
+/-- ReplaySubject, late subscriber (the case that used to leave the forwarder behind): it gets the history and
+    the terminal, and the map does not hold it -/
+theorem replay_late_subscriber_not_held :
+    let st := run .replay [.next (.int 1), .complete, .subscribe 0]
+    logOf st 0 = [.next (.int 1), .complete] ∧ aliveOf st 0 = false ∧ registered st = [] := by decide
 
 /-! ### unsubscribe -/
 
@@ -834,11 +1064,10 @@ theorem gone_step {k st} (h : Good k st) (o : Nat) (hs : (st.obs o).seen = true)
     by_cases hne : o = o'
     · subst hne; rw [step_subscribe_seen k st o hs]; exact ⟨hs, hn⟩
     · rw [step_subscribe_other k st o' o hne]
-      refine ⟨hs, ?_⟩
-      simp only [step, registered, subscribeB_observers]
-      have := subscribeA_registered k st o'
-      simp only [registered] at this hn
-      rw [this]; split <;> simp [hn, hne]
+      refine ⟨hs, fun hm => ?_⟩
+      rcases step_subscribe_sub k st o' o hm with h1 | h1
+      · exact hn h1
+      · exact hne h1
   | unsubscribe o' =>
     refine ⟨?_, fun hm => hn ((unsub_mem h.inv o' o).1 hm).1⟩
     simp only [step, unsub_obs]; split
@@ -878,6 +1107,18 @@ theorem step_seen_mono (k : Kind) (st : State) (c : Call) (o : Nat) (hs : (st.ob
   | error e => simp only [step, emit_obs h]; split <;> simp [recvK_seen, hs]
   | complete => simp only [step, emit_obs h]; split <;> simp [recvK_seen, hs]
 
+theorem subscribeH_seen (k : Kind) (st : State) (o : Nat) (p : Pending) :
+    ((subscribeH k st o p).obs o).seen = (st.obs o).seen := by
+  unfold subscribeH
+  cases k with
+  | replay => dsimp only; split <;> simp [(handOver_fields _ _ _ _).1]
+  | _ => rfl
+
+/-- `subscribe o` always leaves `o` marked as used -/
+theorem step_subscribe_marks (k : Kind) (st : State) (o : Nat) : ((step k st (.subscribe o)).obs o).seen = true := by
+  simp only [step]
+  rw [(subscribeB_obs_self _ _ _ _).1, subscribeH_seen]; exact subscribeA_marks _ _ _
+
 theorem step_seen_iff {k st} (h : Good k st) (c : Call) (o : Nat) :
     ((step k st c).obs o).seen = true ↔ (st.obs o).seen = true ∨ c = .subscribe o := by
   constructor
@@ -898,19 +1139,7 @@ theorem step_seen_iff {k st} (h : Good k st) (c : Call) (o : Nat) :
       | complete => simp only [step, emit_obs h.inv] at hs; split at hs <;> simpa [recvK_seen] using hs
   · rintro (hm | rfl)
     · exact step_seen_mono k _ c o hm h.inv
-    · simp only [step]
-      cases hp : (subscribeA k st o).2.fresh with
-      | false =>
-        have : subscribeB k (subscribeA k st o).1 o (subscribeA k st o).2 = (subscribeA k st o).1 := by
-          cases k <;> simp [subscribeB, hp]
-        rw [this]; exact subscribeA_marks _ _ _
-      | true =>
-        have hi := (h.inv.subscribeA o).subscribeB o _ (subscribeA_fresh_seen k _ o)
-        have hr : o ∈ registered (subscribeB k (subscribeA k st o).1 o (subscribeA k st o).2) := by
-          simp only [registered, subscribeB_observers]
-          have := subscribeA_registered k st o
-          simp only [registered] at this; rw [this, hp]; simp
-        exact hi.regSeen o hr
+    · exact step_subscribe_marks k st o
 
 theorem seen_runFrom {k st} (h : Good k st) (cs : List Call) (o : Nat) :
     ((runFrom k st cs).obs o).seen = true ↔ (st.obs o).seen = true ∨ Call.subscribe o ∈ cs := by
@@ -1020,10 +1249,9 @@ theorem live_runFrom {k st} (hk : k.isAsync = false) (h : Good k st) (o : Nat) (
         · subst hne; rw [step_subscribe_seen k st o hseen]
         · exact step_subscribe_other k st o' o hne
       have hreg : o ∈ registered (step k st (.subscribe o')) := by
-        simp only [step, registered, subscribeB_observers]
-        have := subscribeA_registered k st o'
-        simp only [registered] at this hr
-        rw [this]; split <;> simp [hr]
+        by_cases hne : o = o'
+        · subst hne; rw [step_subscribe_seen k st o hseen]; exact hr
+        · exact step_subscribe_mono h.inv o' o hne hr
       rw [ih (h.step _) hreg (by rw [hobs]; exact ha)]
       simp [logOf, hobs, plainExpect]
     | unsubscribe o' =>
@@ -1087,7 +1315,7 @@ theorem plain_log_spec (pre post : List Call) (o : Nat) (hfresh : Call.subscribe
   show logOf (runFrom .plain (step .plain (run .plain pre) (.subscribe o)) post) o = _
   have hst : (step .plain (run .plain pre) (.subscribe o)) =
       register (run .plain pre) o { seen := true, alive := true, hook := true } := by
-    simp [step, subscribeA, subscribeB, hu]
+    simp [step, subscribeA, subscribeB, subscribeH, Kind.isReplay, hu]
   rw [live_runFrom rfl (hg.step _) o (by rw [hst, register_registered]; simp) (by rw [hst, register_obs]; simp)]
   simp [logOf, hst, register_obs]
 
@@ -1146,11 +1374,16 @@ theorem subscribeA_mem (k : Kind) (st : State) (o : Nat) : mem (subscribeA k st 
       · split <;> rfl
     | _ => rfl
 
-theorem subscribeB_mem (k : Kind) (st : State) (o : Nat) (p : Pending) : mem (subscribeB k st o p) = mem st := by
-  unfold subscribeB
+theorem subscribeH_mem (k : Kind) (st : State) (o : Nat) (p : Pending) : mem (subscribeH k st o p) = mem st := by
+  unfold subscribeH
   cases k with
   | replay => dsimp only; split <;> rfl
   | _ => rfl
+
+theorem subscribeB_mem (k : Kind) (st : State) (o : Nat) (p : Pending) : mem (subscribeB k st o p).1 = mem st := by
+  rw [subscribeB_fst]; split
+  · exact (show mem (reap (subscribeH k st o p) o).1 = mem (subscribeH k st o p) from rfl).trans (subscribeH_mem k st o p)
+  · exact subscribeH_mem k st o p
 
 theorem unsubscribeN_mem (k : Kind) (st : State) (o : Nat) : mem (unsubscribeN k st o).1 = mem st := by
   unfold unsubscribeN; split <;> rfl
@@ -1225,7 +1458,7 @@ theorem behavior_handover (i : Data) (pre post : List Call) (o : Nat) (hfresh : 
   cases he : st.lastError with
   | some e =>
     have hstep : step (.behavior i) st (.subscribe o) = { st with obs := upd st.obs o { seen := true, log := [.error e] } } := by
-      simp [step, subscribeA, subscribeB, hu, he]
+      simp [step, subscribeA, subscribeB, subscribeH, Kind.isReplay, hu, he]
     rw [hstep] at hgs ⊢
     have := frozen_runFrom hgs o (by simp) (by simp) post
     rw [this.1]; simp [logOf]
@@ -1233,14 +1466,14 @@ theorem behavior_handover (i : Data) (pre post : List Call) (o : Nat) (hfresh : 
     cases hl : st.lastItem with
     | none =>
       have hstep : step (.behavior i) st (.subscribe o) = { st with obs := upd st.obs o { seen := true, log := [.complete] } } := by
-        simp [step, subscribeA, subscribeB, hu, he, hl]
+        simp [step, subscribeA, subscribeB, subscribeH, Kind.isReplay, hu, he, hl]
       rw [hstep] at hgs ⊢
       have := frozen_runFrom hgs o (by simp) (by simp) post
       rw [this.1]; simp [logOf]
     | some v =>
       have hstep : step (.behavior i) st (.subscribe o) =
           register st o { seen := true, alive := true, log := [.next v], hook := true, inAlive := true, armed := true } := by
-        simp [step, subscribeA, subscribeB, hu, he, hl]
+        simp [step, subscribeA, subscribeB, subscribeH, Kind.isReplay, hu, he, hl]
       rw [hstep] at hgs ⊢
       rw [live_runFrom rfl hgs o (by rw [register_registered]; simp) (by rw [register_obs]; simp)]
       simp [logOf, register_obs]
@@ -1299,6 +1532,53 @@ theorem handOver_alive (r : ObsSt) (hist : List Data) (we : Option Nat) (wc : Bo
   | some e => simp [ObsSt.recv, t1, t2, Ev.isTerminal]
   | none => cases wc <;> simp [ObsSt.recv, t1, t2, Ev.isTerminal]
 
+/-- what `subscribe o` does for an unused id on a ReplaySubject: the subscriber gets the history and the stored
+    terminal; it is in the map afterwards iff there was no stored terminal -/
+theorem replay_subscribe_fresh {st : State} (hi : Inv .replay st) (o : Nat) (hu : (st.obs o).seen = false) :
+    ((step .replay st (.subscribe o)).obs o).log = st.items.map .next ++ storedTerminal st.wasError st.wasCompleted ∧
+    ((step .replay st (.subscribe o)).obs o).alive = (storedTerminal st.wasError st.wasCompleted).isEmpty ∧
+    ((step .replay st (.subscribe o)).obs o).seen = true ∧
+    (∀ o', o' ∈ registered (step .replay st (.subscribe o)) ↔
+      (o' ∈ registered st ∨ (o' = o ∧ storedTerminal st.wasError st.wasCompleted = []))) := by
+  have hA : subscribeA .replay st o =
+      (register st o { seen := true, alive := true, hook := true, inAlive := true },
+       { fresh := true, len := some (st.observers.length + 1), history := st.items }) := by
+    simp [subscribeA, hu]
+  have hiH := (hi.subscribeA o).subscribeH o (subscribeA .replay st o).2 (subscribeA_fresh_seen _ st o)
+  have hnr := hi.unseen_not_reg o hu
+  have hho := handOver_alive { seen := true, alive := true, hook := true, inAlive := true, inHook := some (st.serial + 1) }
+    st.items st.wasError st.wasCompleted rfl
+  have hfl := handOver_fields { seen := true, alive := true, hook := true, inAlive := true, inHook := some (st.serial + 1) }
+    st.items st.wasError st.wasCompleted
+  simp only [SubjM.step, subscribeB_fst, hA, Kind.isReplay, Bool.true_and, ↓reduceIte]
+  rw [hA] at hiH
+  simp only at hiH
+  generalize hH : subscribeH .replay (register st o { seen := true, alive := true, hook := true, inAlive := true }) o
+    { fresh := true, len := some (st.observers.length + 1), history := st.items } = H at hiH ⊢
+  have hHo : H.obs o = { (handOver { seen := true, alive := true, hook := true, inAlive := true, inHook := some (st.serial + 1) }
+      st.items st.wasError st.wasCompleted) with armed := true } := by
+    rw [← hH]; simp [subscribeH, register]
+  have hHr : registered H = registered st ++ [o] := by
+    rw [← hH]; simp [registered, subscribeH_observers, register]
+  have hs' := reap_obs_self H o
+  refine ⟨by rw [hs'.2.2.1, hHo]; exact hho.1, by rw [hs'.2.1, hHo]; exact hho.2, by rw [hs'.1, hHo]; exact hfl.1, ?_⟩
+  intro o'
+  rw [reap_mem hiH o o', hHr]
+  have hreaped : reaped (H.obs o) = !(storedTerminal st.wasError st.wasCompleted).isEmpty := by
+    rw [hHo]; simp [reaped, hho.2]
+  simp only [List.mem_append, List.mem_singleton, hreaped]
+  constructor
+  · rintro ⟨h1 | h1, h2⟩
+    · exact Or.inl h1
+    · right; refine ⟨h1, ?_⟩
+      cases hst : storedTerminal st.wasError st.wasCompleted with
+      | nil => rfl
+      | cons t ts => exact absurd ⟨h1, by simp [hst]⟩ h2
+  · rintro (h1 | ⟨h1, h2⟩)
+    · refine ⟨Or.inl h1, ?_⟩
+      rintro ⟨rfl, _⟩; exact hnr h1
+    · exact ⟨Or.inr h1, by simp [h2]⟩
+
 /-- **C10 `replay_handover`**: a new subscriber of a ReplaySubject first gets every past item, in call order,
     then the stored terminal if there is one (and nothing more), otherwise exactly what a plain Subject gives
     an observer subscribed at that moment. -/
@@ -1321,22 +1601,12 @@ theorem replay_handover (pre post : List Call) (o : Nat) (hfresh : Call.subscrib
   have hm1 : (runFrom .replay {} pre) = run .replay pre := rfl
   rw [hm1]
   generalize run .replay pre = st at *
-  have hstep : step .replay st (.subscribe o) =
-      { register st o { seen := true, alive := true, hook := true, inAlive := true } with
-        obs := upd (register st o { seen := true, alive := true, hook := true, inAlive := true }).obs o
-          { (handOver { seen := true, alive := true, hook := true, inAlive := true, inHook := some (st.serial + 1) }
-              st.items st.wasError st.wasCompleted) with armed := true } } := by
-    simp [step, subscribeA, subscribeB, hu, register_obs]
-    rfl
-  have hho := handOver_alive { seen := true, alive := true, hook := true, inAlive := true, inHook := some (st.serial + 1) }
-    st.items st.wasError st.wasCompleted rfl
-  have hlog : logOf (step .replay st (.subscribe o)) o = st.items.map .next ++ storedTerminal st.wasError st.wasCompleted := by
-    rw [hstep]; simp [logOf, hho.1]
-  have hal : ((step .replay st (.subscribe o)).obs o).alive = (storedTerminal st.wasError st.wasCompleted).isEmpty := by
-    rw [hstep]; simp [hho.2]
-  have hreg : o ∈ registered (step .replay st (.subscribe o)) := by
-    rw [hstep]; simp [registered, register]
-  have hseen := hgs.inv.regSeen o hreg
+  have hf := replay_subscribe_fresh hg.inv o hu
+  have hlog : logOf (step .replay st (.subscribe o)) o = st.items.map .next ++ storedTerminal st.wasError st.wasCompleted := hf.1
+  have hal := hf.2.1
+  have hseen := hf.2.2.1
+  have hreg : storedTerminal st.wasError st.wasCompleted = [] → o ∈ registered (step .replay st (.subscribe o)) :=
+    fun h0 => (hf.2.2.2 o).2 (Or.inr ⟨rfl, h0⟩)
   cases he : st.wasError with
   | some e =>
     simp only [he, storedTerminal] at hlog hal
@@ -1349,8 +1619,8 @@ theorem replay_handover (pre post : List Call) (o : Nat) (hfresh : Call.subscrib
       have := frozen_runFrom hgs o hseen (by simpa using hal) post
       rw [this.1, hlog]; simp
     | false =>
-      simp only [he, hc, storedTerminal] at hlog hal
-      rw [live_runFrom rfl hgs o hreg (by simpa using hal), hlog]; simp
+      simp only [he, hc, storedTerminal] at hlog hal hreg
+      rw [live_runFrom rfl hgs o (hreg (by simp)) (by simpa using hal), hlog]; simp
 
 /-- as written (replay_subject.rs:28-31) `next` after a terminal is still recorded, so "every past item"
     includes items pushed after the subject completed: the late subscriber 1 gets `7` before `complete`. -/
@@ -1394,10 +1664,9 @@ theorem async_live_runFrom {st} (h : Good .async st) (o : Nat) (last : Option Da
         · subst hne; rw [step_subscribe_seen .async st o hseen]
         · exact step_subscribe_other .async st o' o hne
       have hreg : o ∈ registered (step .async st (.subscribe o')) := by
-        simp only [step, registered, subscribeB_observers]
-        have := subscribeA_registered .async st o'
-        simp only [registered] at this hr
-        rw [this]; split <;> simp [hr]
+        by_cases hne : o = o'
+        · subst hne; rw [step_subscribe_seen .async st o hseen]; exact hr
+        · exact step_subscribe_mono h.inv o' o hne hr
       rw [ih (h.step _) last hreg (by rw [hobs]; exact hlog) (by rw [hobs]; exact hbuf)]
       simp [asyncExpect]
     | unsubscribe o' =>
@@ -1442,7 +1711,7 @@ theorem async_last_only (pre post : List Call) (o : Nat) (hfresh : Call.subscrib
   show logOf (runFrom .async (step .async (run .async pre) (.subscribe o)) post) o = _
   have hst : (step .async (run .async pre) (.subscribe o)) =
       register (run .async pre) o { seen := true, alive := true, hook := true, inAlive := true, armed := true } := by
-    simp [step, subscribeA, subscribeB, hu]
+    simp [step, subscribeA, subscribeB, subscribeH, Kind.isReplay, hu]
   exact async_live_runFrom (hg.step _) o none (by rw [hst, register_registered]; simp)
     (by rw [hst, register_obs]; simp) (by rw [hst, register_obs]; simp) post
 
@@ -1500,7 +1769,7 @@ example : Call.subscribe 2 ∉ [Call.subscribe 0, .next (.int 1), .subscribe 1, 
 #print axioms registered_alive
 #print axioms no_observer_after_terminal
 #print axioms terminated_not_registered
-#print axioms replay_holds_observer_after_terminal
+#print axioms replay_late_subscriber_not_held
 #print axioms no_observer_after_unsubscribe
 #print axioms plain_log_spec
 #print axioms behavior_handover
